@@ -24,7 +24,7 @@ ASSUMPTIONS = [
 
 
 def cases():
-    return orch.scenarios(searchers=False)
+    return orch.scenarios(searchers=False, bad_extra=True)
 
 
 def prop(case, rec):
